@@ -14,7 +14,8 @@ RULE = ("One real logged-in client asks for a peer connection to a scripted peer
         "can work: direct in {fast, slow(<10 s), refused, hang(->10 s timeout), reset while sending the init message, "
         "server has no address}, indirect in {peer pierces fast, pierces slowly(<60 s), cannot-connect relayed, silence"
         "(->60 s timeout), server link down}; x connect mode {race, fallback} x port availability {clear, obfuscated, "
-        "both} x obfuscation preference x type {P,F,D} x cancellation of the request after k loop steps / t seconds. "
+        "both} x obfuscation preference x type {P,F,D} x cancellation of the request after k loop steps / t seconds x "
+        "server answers with / without the optional obfuscated-port fields. "
         "The mode x direct x indirect grid (60 cells) is enumerated in every run, the rest is seeded. Oracle: result "
         "== (direct works or indirect works) else PeerConnectionError; the returned connection is initialised and "
         "carries a message each way; 120 virtual seconds later: registry == {returned}, open sockets of the client "
